@@ -48,6 +48,9 @@ def run(tier, seed, pid="C02"):
     vlib.conformance(o, qc.FAMILY, "QBFTTrace", qc.trace_cfg_of, "c02", rnd, tag="random", replay_of=qc.trace_to_schedule)
     vlib.conformance(o, qc.FAMILY, "QBFTTrace", qc.trace_cfg_of, "c02", qc.scenario_schedules(seed, "c02", 6 if thorough else 1),
                      tag="scenario", replay_of=qc.trace_to_schedule)
+    # component tier (Byzantine plans against the real consensus components; the liveness probe belongs to C04)
+    import conscluster
+    conscluster.stage(o, tier, seed, probe_finding=False)
     tr = vlib.split_traces(vlib.read_ndjson(vlib.workdir(pid) + "/trace_random.ndjson"))
     vlib.binding_selftest(o, qc.FAMILY, "QBFTTrace", qc.trace_cfg_of, tr, qc.mutators())
     decided = sum(1 for t in tr for e in t if e.get("ev") == "Deliver" and e.get("rule") in ("QC", "JD"))
